@@ -19,7 +19,8 @@ pub struct Case {
 
 pub fn gen_case(t: &mut Tape, tier: Tier) -> Option<Case> {
     let mo = if t.chance(0.3) { 1.0 / 64.0 } else { 0.15 };
-    let p = gen::gen_phys(t, &PhysOpts { max_e: tier.pick(8, 9), max_l: 5, min_omega: mo, dmax: 6, max_ops: 3, profile: gen::SECTOR })?;
+    let opts = PhysOpts { max_e: tier.pick(8, 9), max_l: 5, min_omega: mo, dmax: 6, max_ops: 3, profile: gen::SECTOR };
+    let p = if t.chance(0.1) { gen::gen_phys_union(t, &opts)? } else { gen::gen_phys(t, &opts)? };
     let points = (0..12).map(|i| gen::gen_point(t, &p.g, if i % 3 == 0 { &gen::CORNERS } else { &gen::MODERATE }).0).collect();
     Some(Case { p, points })
 }
@@ -128,7 +129,7 @@ fn check_d<const D: usize>(c: &Case, ctx: &mut Ctx) -> Result<(), Failure> {
     Ok(())
 }
 pub fn check(c: &Case, ctx: &mut Ctx) -> Result<(), Failure> {
-    phys::validate(&c.p)?;
+    phys::validate_opt(&c.p, true)?;
     let dim = gen::dimension(&c.p.g);
     if c.points.iter().any(|x| x.len() < dim || x.iter().any(|v| !(v.is_finite() && *v >= 0.0 && *v < 1.0))) {
         fail!("bad-case", "extra points outside [0,1)^dim");
@@ -137,7 +138,7 @@ pub fn check(c: &Case, ctx: &mut Ctx) -> Result<(), Failure> {
 }
 pub fn run(tier: Tier, seed: u64) -> i32 {
     let t0 = Instant::now();
-    let sp = Spec { id: "C18", rule: RULE, tape_len: 900, cases: tier.pick(6_000, 100_000), gen: gen_case, check, max_shrink_iters: 2000, shards: 16 };
+    let sp = Spec { id: "C18", rule: RULE, tape_len: 900, cases: tier.pick(40_000, 400_000), gen: gen_case, check, max_shrink_iters: 2000, shards: 16 };
     let mut stats = engine::run_spec(&sp, tier, seed);
     engine::run_regressions::<Case>("C18", check, &mut stats);
     engine::finish("C18", tier, seed, RULE, stats, t0, serde_json::json!({}), &["serde_json (text with float_roundtrip, and its Value tree) as the two self-describing formats that preserve f64 exactly", "identical sampling is established on 13 generated points per sampler, not on all points"])
